@@ -93,8 +93,36 @@ class Ctx:
         return self.prog.subclasses(base) if base else []
 
     def protocol_classes(self) -> List[ClassInfo]:
+        """Protocol classes a connection can be served by.  A class that only collects code shared by several protocols (it
+        has subclasses, defines neither canhandlerequest() nor handle() itself and is named in no shipped protocol list) is
+        not one of them: its methods are analysed through the protocols that inherit them."""
         base = self.cls("protocols.base.BaseGopherProtocol")
-        return self.prog.subclasses(base) if base else []
+        if not base:
+            return []
+        cached = self._cache.get("protocol_classes")
+        if cached is not None:
+            return cached
+        try:
+            listed = {c for lst in self.protocol_lists().values() for c in lst}
+        except Exception:
+            listed = set()
+        out = []
+        for C in self.prog.subclasses(base):
+            if C is not base and C not in listed and "canhandlerequest" not in C.methods and "handle" not in C.methods \
+                    and any(S is not C for S in self.prog.subclasses(C)):
+                continue
+            out.append(C)
+        self._cache["protocol_classes"] = out
+        return out
+
+    def owns(self, P: ClassInfo, m) -> bool:
+        """Is method m `P's own` for per-class rules: defined in P, or inherited from a class that is not itself a protocol
+        a connection can be served by (a mixin or a collecting base class)."""
+        if m is None:
+            return False
+        if m.cls is P:
+            return True
+        return m.cls is not None and m.cls not in self.protocol_classes() and m.cls in self.prog.mro(P)
 
     def handler_lists(self) -> Dict[str, List[ClassInfo]]:
         return self.config.class_list(self.prog, "handlers.HandlerMultiplexer", "handlers", "handlers")
